@@ -49,3 +49,56 @@ PROPS["C20"] = {
         plain_unit("replay", "^TestC20_Replay$", replay=True),
     ],
 }
+
+# ------------------------------------------------------------------------------------------------
+# Engine A (sequential lock engine under a virtual clock): C01..C06, C15, C17
+
+_A_GEN = ("rapid state-machine style generation against one fresh leader instance per case (db_concurrent in {1,2,4}, "
+          "db_fast_key_count in {1,4,64} so that fast-slot collisions and the slow key map are common, aof time in {0,1}), 1..4 "
+          "in-memory clients, 3..70 operations: LOCK/UNLOCK from the core command subset (flags show/update/concurrent-check/"
+          "contains-data, unlock-first/cancel-wait, minute/priority/wait-when-unlocked timeout flags, minute/unlimited/aof expiry "
+          "flags, Count/Rcount/Timeout/Expried over their whole ranges with weights on boundary values), bursts of 9..140 "
+          "requests on one key, virtual-clock ticks (single seconds and clock jumps with the catch-up loop, timeout sweep before/after "
+          "expiry sweep), pool collection; then a drain (cancel every queued request, release every hold, advance the clock 24 s). "
+          "Oracle: reference ledger driven by the reply stream + in-package snapshot after every operation and every clock second. ")
+
+def _engineA(prop, nontrivial, quick_checks, thorough_checks, extra_units=(), steps=None):
+    units = [
+        rapid_unit("A-" + prop, "^Test%s_EngineA$" % prop,
+                   quick={"checks": quick_checks, "shards": 16, "timeout_s": 420},
+                   thorough={"checks": thorough_checks, "shards": 16, "timeout_s": 3000}),
+        plain_unit("replay-" + prop, "^Test%s_Replay$" % prop, replay=True),
+    ]
+    units += list(extra_units)
+    return {
+        "level": "exploration",
+        "rule": _A_GEN + "Non-trivial: " + nontrivial + " Distinct = distinct FNV-64 fingerprints of the executed operation list + instance parameters.",
+        "assumptions": [
+            "millisecond time flags and require-ack are not generated in this engine (they leave the virtual clock); less-lock-version, unlock-to-wait, tree lock, reverse-key, EXECUTE data and keeplive flags are excluded as the property states",
+            "a LockId is not reused for a new lock request while a request bearing it is still queued on the same key",
+            "(unlimited flag, Expried 0xffff) - an undocumented 'keep the current terms' value - is not generated",
+            "timeouts/expiries are observed on the server's own clock (LockDB.currentTime driven by the harness through the real sweep functions)",
+        ],
+        "units": units,
+    }
+
+PROPS["C01"] = _engineA("C01", "a grant happened while another hold was outstanding, or a request was queued/refused because of capacity.", 4000, 200000)
+PROPS["C02"] = _engineA("C02", "the case contains a re-entrant success and at least one refused unlock.", 4000, 200000)
+PROPS["C03"] = _engineA("C03", "at least one asynchronous terminal reply or notice (grant from the queue, TIMEOUT, cancel, EXPRIED).", 4000, 200000)
+PROPS["C04"] = _engineA("C04", "at least two requests queued on one key and a hold ended while they waited.", 4000, 200000)
+PROPS["C05"] = _engineA("C05", "a TIMEOUT of a queued request fired from the long-wait table (T > 9 s) or while other requests stayed queued on the key.", 4000, 200000)
+PROPS["C06"] = _engineA("C06", "an EXPRIED notice while requests were queued on the key, or an applied update of a live hold.", 4000, 200000)
+PROPS["C17"] = _engineA("C17", "at least three different ways of ending a hold or a wait (unlock, one-level unlock, expiry, timeout, cancel, grant from queue) before the drain.", 4000, 200000)
+PROPS["C15"] = _engineA("C15", "engine A: at least three value operations of at least two kinds applied on one case including one refused request carrying a value operation; pure differential: at least three operations of at least two kinds.", 4000, 200000,
+    extra_units=[rapid_unit("pure", "^TestC15_PureDifferential$", quick={"checks": 40000, "shards": 8, "timeout_s": 300},
+                            thorough={"checks": 2000000, "shards": 16, "timeout_s": 2400})])
+PROPS["C15"]["units"][1] = plain_unit("replay-C15", "^TestC15_Replay$", replay=True)
+PROPS["C15"]["rule"] = ("Two layers. (a) pure differential: LockManager.ProcessLockData on a bare key manager vs. a sequential interpreter written from the "
+                        "protocol description, 1..14 operations per case over typed keys (bytes: SET/APPEND/SHIFT/UNSET; number: INCR/SET/UNSET; array: PUSH/POP/UNSET), "
+                        "payloads 0..700 bytes, INCR operands incl. int64 extremes, SHIFT/POP beyond the length, property headers, single-level PIPELINEs, "
+                        "carried on lock and unlock commands. (b) " + PROPS["C15"]["rule"])
+PROPS["C15"]["assumptions"] = PROPS["C15"]["assumptions"] + [
+    "keys are typed per case/index so only operations the protocol description defines for that value type meet; array elements are non-empty",
+    "operations flagged process-first-or-last may legitimately be skipped (documented convention): both outcomes are accepted",
+    "once nothing holds a key its value may vanish with the key manager at any time (candidate set {old value, none})",
+]
